@@ -1,6 +1,6 @@
 (* Props/C18.v -- property C18 at full strength: statements only.
    Topic filter validation and matching follow MQTT section 4.7. *)
-From MV Require Import Base.Prelude Model.Topic Spec.SpecTopic Proofs.TopicProofs.
+From MV Require Import Base.Prelude Model.Topic Spec.SpecTopic Proofs.TopicProofs Proofs.TopicCover.
 
 (* filter validation accepts exactly the filters section 4.7 allows (all byte strings) *)
 Theorem C18_valid_is_spec : forall s, is_valid s = spec_valid_filter s.
@@ -34,6 +34,39 @@ Theorem C18_cover_sound : forall f g F G t,
   spec_topic_name t = true -> matches_topic G t = true -> matches_topic F t = true.
 Proof. exact cover_sound. Qed.
 Print Assumptions C18_cover_sound.
+
+(* the covering relation is a preorder on filters (any level lists) *)
+Theorem C18_cover_refl : forall F, matches_filter F F = true.
+Proof. exact cover_refl. Qed.
+Print Assumptions C18_cover_refl.
+
+Theorem C18_cover_trans : forall F G H,
+  matches_filter F G = true -> matches_filter G H = true -> matches_filter F H = true.
+Proof. exact cover_trans. Qed.
+Print Assumptions C18_cover_trans.
+
+(* a filter whose first level starts with `$` is covered only by a filter with the very same first
+   level: no wildcard in first position covers it (universal form of the defect repaired by ad5dc3e) *)
+Theorem C18_cover_system_first : forall F x G,
+  matches_filter F (System x :: G) = true -> exists F', F = System x :: F'.
+Proof. exact cover_system_first. Qed.
+Print Assumptions C18_cover_system_first.
+
+(* `#` covers every filter whose first level is not a `$`-level *)
+Theorem C18_cover_hash_all : forall g G,
+  (forall x, g <> System x) -> matches_filter [Multi] (g :: G) = true.
+Proof. exact cover_hash_all. Qed.
+Print Assumptions C18_cover_hash_all.
+
+(* the premises above are met by parsed filters: "$SYS/+" parses to a System-first filter,
+   it is covered by itself and by "$SYS/#" but by neither "+/+" nor "#" *)
+Example C18_cover_nonvacuous :
+  exists F G P Hh, parse [36;83;89;83;47;43] = inl F /\ parse [36;83;89;83;47;35] = inl G /\
+    parse [43;47;43] = inl P /\ parse [35] = inl Hh /\
+    (exists x r, F = System x :: r) /\
+    matches_filter F F = true /\ matches_filter G F = true /\
+    matches_filter P F = false /\ matches_filter Hh F = false.
+Proof. do 4 eexists; repeat split; try (vm_compute; reflexivity). do 2 eexists; vm_compute; reflexivity. Qed.
 
 (* non-vacuity: the hypotheses are met by concrete non-trivial values *)
 Example C18_nonvacuous :
